@@ -168,11 +168,11 @@ Proof.
 Qed.
 
 (* EndBlock: entries are only deleted, or created with value 0 *)
-Lemma fold_remove_entry vals : forall sealed n v f x,
-  entry (fold_left (fun n fid => remove_nonce n fid vals) sealed n) v f x -> entry n v f x.
+Lemma fold_remove_entry : forall sealed n v f x,
+  entry (fold_left (fun n fid => remove_nonce n fid (map fst n)) sealed n) v f x -> entry n v f x.
 Proof.
   induction sealed as [|fid r IH]; intros n v f x H; simpl in H; [exact H|].
-  apply (remove_nonce_entry fid vals n). exact (IH _ _ _ _ H).
+  apply (remove_nonce_entry fid (map fst n) n). exact (IH _ _ _ _ H).
 Qed.
 
 Lemma fold_add_entry vals : forall fresh n v f x,
@@ -200,7 +200,7 @@ Proof.
   match goal with |- context [seal_round p h ?fo ?m1] => destruct (seal_round p h fo m1) as [[m2 failed] sealed] end.
   destruct (prepare_round p h m2) as [m3 fresh]. simpl. intro He.
   destruct (fold_add_entry _ _ _ _ _ _ He) as [E|E]; [left; exact E|]. right.
-  rewrite fold_grow_nonces in E. simpl in E. exact (fold_remove_entry _ _ _ _ _ _ E).
+  rewrite fold_grow_nonces in E. simpl in E. exact (fold_remove_entry _ _ _ _ _ E).
 Qed.
 
 Lemma end_block_bounded p h u st :
